@@ -1,6 +1,6 @@
 SPECIFICATION Spec
 CONSTANTS
-  Feats = {"type:str", "lit:5", "ast:For", "call:print", "op:+", "foreign"}
+  Feats = {"type:str", "lit:5", "ast:For", "call:print", "op:+", "foreign", "verifyOther"}
   MaxOcc = 2
   MaxLen = 3
   Flags = {}
